@@ -101,16 +101,16 @@ Qed.
 
 (* ------------------------------------------------------------------ (a) value2code / code2value *)
 
-Lemma card_nonneg : forall a lo, wf_from lo a -> 0 <= card a.
+Lemma pb_card_nonneg : forall a lo, wf_from lo a -> 0 <= card a.
 Proof.
   induction a as [|r tl IH]; intros lo H; cbn [card]; [lia|].
   cbn [wf_from] in H. destruct H as (H1 & H2 & H3). specialize (IH _ H3). lia.
 Qed.
 
-Lemma card_pos a : wf_alpha a -> 1 <= card a.
+Lemma pb_card_pos a : wf_alpha a -> 1 <= card a.
 Proof.
   intros [Hne H]. destruct a as [|r tl]; [congruence|]. cbn [card wf_from] in *.
-  destruct H as (H1 & H2 & H3). pose proof (card_nonneg _ _ H3). lia.
+  destruct H as (H1 & H2 & H3). pose proof (pb_card_nonneg _ _ H3). lia.
 Qed.
 
 Lemma idx_of_val_of : forall a lo v i, wf_from lo a -> idx_of a v = Some i ->
@@ -118,7 +118,7 @@ Lemma idx_of_val_of : forall a lo v i, wf_from lo a -> idx_of a v = Some i ->
 Proof.
   induction a as [|r tl IH]; intros lo v i Hwf H; cbn [idx_of] in H; [discriminate|].
   cbn [wf_from] in Hwf. destruct Hwf as (H1 & H2 & H3).
-  pose proof (card_nonneg _ _ H3) as Hc. cbn [val_of card].
+  pose proof (pb_card_nonneg _ _ H3) as Hc. cbn [val_of card].
   destruct ((fst r <=? v) && (v <=? snd r)) eqn:Ein.
   - injection H as <-.
     destruct (v - fst r <? 0) eqn:E0; [lia|].
@@ -303,6 +303,23 @@ Proof.
     { intros E. rewrite E in Hext. exact Hext. }
     rewrite (uper_km_rt std l Hroot Hext' cs bits rest Hcb Hlen Hu). rewrite Hcat. reflexivity.
   - apply (sized_rt get_octet (SCon 0 None false) bs _ bits rest (octets_inv bs Hb) Hu).
+Qed.
+
+(* the condition is met by every string type of the family without a permitted-alphabet
+   constraint, whatever its SIZE constraint, in both readings - except, in the C's reading, the
+   NumericString without any constraint *)
+Lemma wf_leaf_intro std l :
+  pair_ok (cub_of (s_k l)) (w_root std l) (pc_root std l) = true ->
+  pair_ok (cub_of (s_k l)) (w_ext std l) (pc_ext std l) = true -> wf_leaf std l = true.
+Proof. intros H1 H2. unfold wf_leaf. rewrite H1, H2. rewrite !orb_true_r. reflexivity. Qed.
+
+Theorem wf_leaf_no_from : forall std tg k sz,
+  std = true \/ k <> KNumeric \/ sz <> None -> wf_leaf std (Str tg k sz None) = true.
+Proof.
+  intros std tg k sz H.
+  destruct std, k, sz as [[lo hi e]|];
+    try (apply wf_leaf_intro; reflexivity); try reflexivity.
+  destruct H as [H|[H|H]]; congruence.
 Qed.
 
 (* ------------------------------------------------------------------ (e) DER / BER and OER *)
@@ -501,3 +518,68 @@ Proof.
     assert (Hpos : 1 <= zlen bits) by (rewrite Ebits, zlen_cons; pose proof (zlen_nonneg tl); lia).
     split; [|lia]. f_equal. f_equal. lia.
 Qed.
+
+(* ------------------------------------------------------------------ (f) the hypotheses are met *)
+
+(* SEQUENCE { a IA5String (SIZE(1..5,...)), b [0] EXPLICIT NumericString (FROM("0".."9")) OPTIONAL,
+              c BOOLEAN } *)
+Definition ex_sty : sty :=
+  SSeq 64 [ MStr [] false (Str 88 KIA5 (Some (SCon 1 (Some 5) true)) None);
+            MStr [2] true (Str 72 KNumeric None (Some [(48, 57)]));
+            MBase (TBool 4) ].
+
+(* { a "Hi", b "42", c TRUE } *)
+Definition ex_sval : val := VSeq [VOct [72; 105]; VSome (VOct [52; 50]); VBool true].
+(* { a "HiHiHi" (outside the root of the SIZE), c FALSE } *)
+Definition ex_sval6 : val := VSeq [VOct [72; 105; 72; 105; 72; 105]; VNone; VBool false].
+
+Example ex_s_meets_hypotheses :
+  wf_sty_uper false ex_sty = true /\ wf_sty_uper true ex_sty = true /\
+  wt_sty_uper false ex_sty ex_sval = true /\ wt_sty_uper true ex_sty ex_sval = true /\
+  wt_sty_uper false ex_sty ex_sval6 = true /\ wt_sty_uper true ex_sty ex_sval6 = true.
+Proof. vm_compute. repeat split. Qed.
+
+(* presence 1 | in the root 0 | size - 1 in 3 bits | 'H' 'i' in 7 bits each | length 2 in 8 bits |
+   '4' - '0', '2' - '0' in 4 bits each | TRUE *)
+Example ex_s_uper :
+  pb_uper false ex_sty ex_sval =
+    Some [true;  false;  false; false; true;
+          true; false; false; true; false; false; false;   true; true; false; true; false; false; true;
+          false; false; false; false; false; false; true; false;
+          false; true; false; false;   false; false; true; false;   true] /\
+  pb_uper true ex_sty ex_sval = pb_uper false ex_sty ex_sval /\
+  pb_uper_encode false ex_sty ex_sval = Some [140; 141; 32; 72; 80].
+Proof. vm_compute. repeat split. Qed.
+
+Example ex_s_uper_decodes :
+  (exists bits, pb_uper false ex_sty ex_sval = Some bits /\
+                pb_uper_dec false ex_sty bits = Some (ex_sval, [])) /\
+  pb_uper_decode false ex_sty [140; 141; 32; 72; 80] = Some (ex_sval, 5).
+Proof. split; [eexists; split|]; vm_compute; reflexivity. Qed.
+
+(* outside the root the two readings differ (8 bits per character in the C, 7 in X.691 30.4);
+   each reader inverts its writer *)
+Example ex_s_uper_ext_decodes :
+  (exists bits, pb_uper false ex_sty ex_sval6 = Some bits /\ length bits = 59%nat /\
+                pb_uper_dec false ex_sty bits = Some (ex_sval6, [])) /\
+  (exists bits, pb_uper true ex_sty ex_sval6 = Some bits /\ length bits = 53%nat /\
+                pb_uper_dec true ex_sty bits = Some (ex_sval6, [])).
+Proof. split; eexists; (split; [|split]); vm_compute; reflexivity. Qed.
+
+Example ex_s_der_oer :
+  wf_ty (der_ty ex_sty) = true /\ wt (der_ty ex_sty) ex_sval = true /\
+  pb_der ex_sty ex_sval = Some [48; 13; 22; 2; 72; 105; 160; 4; 18; 2; 52; 50; 1; 1; 255] /\
+  pb_ber_decode ex_sty [48; 13; 22; 2; 72; 105; 160; 4; 18; 2; 52; 50; 1; 1; 255] = Some (ex_sval, 15) /\
+  wf_ty_oer (oer_ty ex_sty) = true /\ wt_oer (oer_ty ex_sty) ex_sval = true /\
+  pb_oer ex_sty ex_sval = Some [128; 2; 72; 105; 2; 52; 50; 255] /\
+  pb_oer_dec ex_sty [128; 2; 72; 105; 2; 52; 50; 255] = Some (ex_sval, []).
+Proof. vm_compute. repeat split. Qed.
+
+Print Assumptions uper_leaf_rt.
+Print Assumptions uper_leaf_numeric_plain_refuted.
+Print Assumptions wf_leaf_no_from.
+Print Assumptions pb_uper_roundtrip_in_stream.
+Print Assumptions pb_uper_decode_roundtrip.
+Print Assumptions pb_der_roundtrip_in_stream.
+Print Assumptions pb_der_roundtrip.
+Print Assumptions pb_oer_roundtrip_in_stream.
